@@ -149,11 +149,14 @@ def gen_cases(ctx, names):
     return cases
 
 
+FEATURE_COOKIE = [True]      # which build `evaluate` is judging (leptos_i18n with / without its `cookie` feature)
+
+
 def lean_request(case, impl, names, avail, table, idx):
     hdr = case["accept_language"]
     needed = set(leptos_use_entries(hdr)) | {e.strip(" \t\n\x0c\r") for e in leptos_use_entries(hdr)} | set(rfc_entries(hdr))
     return {"op": "ctx.resolve", "kind": {"component": "root", "sub_component": "sub"}.get(case["kind"], case["kind"]), "names": names, "avail": avail, "default": 0,
-            "feature_cookie": True, "cookie_flag": case["enable_cookie"], "jar_value": impl["cookie_seen"],
+            "feature_cookie": FEATURE_COOKIE[0], "cookie_flag": case["enable_cookie"], "jar_value": impl["cookie_seen"],
             "header": hdr, "parse": [[s, table[s]] for s in sorted(needed)], "spec_accepted": rfc_entries(hdr),
             "initial": None if case["initial"] is None else idx[case["initial"]],
             "parent": None if case["parent"] is None else idx[case["parent"]],
@@ -164,11 +167,13 @@ def strip_meta(c):
     return {k: v for k, v in c.items() if not k.startswith("_")}
 
 
-def setup(ctx):
-    binr = cargo_build(ctx, "ctx_h")
+def setup(ctx, nocookie=False):
+    binr = cargo_build(ctx, "ctx_h", features=[], variant="nocookie") if nocookie else cargo_build(ctx, "ctx_h")
     if binr is None:
         return None
     (loc,), _ = run_lines(binr, [{"op": "locales"}])
+    if loc.get("feature_cookie") is not (not nocookie):
+        raise HarnessError("ctx_h build mixed up: feature_cookie=%r in the %s build" % (loc.get("feature_cookie"), "nocookie" if nocookie else "plain"))
     names = [l["name"] for l in loc["locales"]]
     if loc["default"] != names[0]:
         raise HarnessError("default locale is not get_all()[0]")
@@ -234,8 +239,23 @@ def run(ctx):
                                     "locale as explicit initial locale)")
     mism = 0
     naive_diff = 0
-    for n, (c, r, m, spec_bad, model_bad) in enumerate(evaluate(ctx, binr, names, avail, table, idx, cases)):
+    # the second build: leptos_i18n WITHOUT its `cookie` feature — no kind of context may consult a cookie there (same cases, a sample in the quick tier)
+    st2 = setup(ctx, nocookie=True)
+    runs = [(True, binr, cases)]
+    if st2 is not None:
+        sub = cases if not ctx.quick else [c for c in cases if c["cookie_header"] is not None and ctx.rng.chance(1, 3)]
+        runs.append((False, st2[0], sub))
+    evaluated = []
+    for feat, b, cs in runs:
+        FEATURE_COOKIE[0] = feat
+        for item in evaluate(ctx, b, names, avail, table, idx, cs):
+            evaluated.append((feat,) + item)
+    FEATURE_COOKIE[0] = True
+    for n, (feat, c, r, m, spec_bad, model_bad) in enumerate(evaluated):
         pub = strip_meta(c)
+        if not feat:
+            pub = dict(pub, leptos_i18n_cookie_feature=False)
+            ctx.count("build_without_cookie_feature")
         ctx.seen(pub, nontrivial=c["cookie_header"] is not None or bool(rfc_entries(c["accept_language"])))
         ctx.count("kind=" + c["kind"])
         ctx.count("cookie=" + c["_cookie"])
@@ -251,7 +271,7 @@ def run(ctx):
                 "case": pub, "got": r["locale"], "expected_by_spec": names[m["spec"]], "deciding_tier": m["spec_tier"],
                 "cookie_value_seen_by_leptos_use": r["cookie_seen"], "accepted_languages_seen": r["accepted_seen"],
                 "accepted_languages_by_rfc_reading": rfc_entries(c["accept_language"]), "model": names[m["model"]],
-                "harness": "ctx_h resolve", "replay_cmd": "./check C15 --replay <this file>"})
+                "harness": "ctx_h resolve" + ("" if feat else " (build without leptos_i18n's `cookie` feature)"), "replay_cmd": "./check C15 --replay <this file>"})
         elif model_bad:
             mism += 1
             if not any(b["name"] == "R/resolve:" + model_bad for b in ctx.broken):
@@ -287,6 +307,12 @@ def replay(ctx, payload):
         raise HarnessError("harness does not build")
     binr, names, avail, table, idx, inter = st
     case = strip_meta(payload["case"])
+    if case.pop("leptos_i18n_cookie_feature", True) is False:
+        st2 = setup(ctx, nocookie=True)
+        if st2 is None:
+            raise HarnessError("harness (nocookie build) does not build")
+        binr = st2[0]
+        FEATURE_COOKIE[0] = False
     hdr = case["accept_language"]
     need = sorted(set(leptos_use_entries(hdr)) | {e.strip(" \t\n\x0c\r") for e in leptos_use_entries(hdr)} | set(rfc_entries(hdr)))
     missing = [t for t in need if t not in table]
